@@ -9,25 +9,56 @@ Definition PEx (L : Z) (ts : list tok) (res : expr * list tok) : Prop := exists 
 Definition PSx (L : Z) (left : expr) (ll : Z) (ts : list tok) (res : expr * list tok) : Prop :=
   exists n, parse_suffix n L left ll ts = Some res.
 
+Lemma tok_eqb_eq a b : tok_eqb a b = true -> a = b.
+Proof.
+  destruct a, b; simpl; intro H; try discriminate.
+  - apply zlist_eqb_eq in H. congruence.
+  - apply zlist_eqb_eq in H. congruence.
+  - apply andb_true_iff in H as [H1 H2]. apply zlist_eqb_eq in H1. apply zlist_eqb_eq in H2. congruence.
+  - apply zlist_eqb_eq in H. congruence.
+Qed.
+
+Definition PAx (ts : list tok) (res : expr * list tok) : Prop := exists n, parse_args n ts = Some res.
+
 Lemma E_atom L t r a res :
-  prefix_op t = None -> atom_of t = Some a -> PSx L a S_Member r res -> PEx L (t :: r) res.
-Proof. intros H1 H2 [n Hn]. exists (S n). rewrite parse_expr_S. unfold expr_step. rewrite H1, H2. exact Hn. Qed.
+  is_new t = false -> prefix_op t = None -> atom_of t = Some a -> PSx L a S_Member r res -> PEx L (t :: r) res.
+Proof. intros H0 H1 H2 [n Hn]. exists (S n). rewrite parse_expr_S. unfold expr_step. rewrite H0, H1, H2. exact Hn. Qed.
+
+Lemma E_new_args L t r c p r'' a r3 res :
+  is_new t = true -> PEx S_Call r (c, p :: r'') -> is_open p = true -> PAx r'' (a, r3) ->
+  PSx L (ENew c a) S_Member r3 res -> PEx L (t :: r) res.
+Proof.
+  intros H0 [n1 Hn1] H1 [n2 Hn2] [n3 Hn3]. exists (S (Nat.max n1 (Nat.max n2 n3))). rewrite parse_expr_S. unfold expr_step.
+  rewrite H0. rewrite (parse_expr_mono n1 _ _ _ _ (Nat.le_max_l _ _) Hn1). rewrite H1.
+  rewrite (parse_args_mono n2 (Nat.max n1 (Nat.max n2 n3)) _ _ (Nat.le_trans _ _ _ (Nat.le_max_l n2 n3) (Nat.le_max_r n1 _)) Hn2).
+  exact (parse_suffix_mono n3 _ _ _ _ _ _ (Nat.le_trans _ _ _ (Nat.le_max_r n2 n3) (Nat.le_max_r n1 _)) Hn3).
+Qed.
+Lemma E_new_bare L t r c r' res :
+  is_new t = true -> PEx S_Call r (c, r') -> (match r' with p :: _ => is_open p = false | [] => True end) ->
+  PSx L (ENew c ANil) S_New r' res -> PEx L (t :: r) res.
+Proof.
+  intros H0 [n1 Hn1] H1 [n2 Hn2]. exists (S (Nat.max n1 n2)). rewrite parse_expr_S. unfold expr_step.
+  rewrite H0. rewrite (parse_expr_mono n1 _ _ _ _ (Nat.le_max_l _ _) Hn1).
+  pose proof (parse_suffix_mono n2 _ _ _ _ _ _ (Nat.le_max_r n1 n2) Hn2) as Hs.
+  destruct r' as [|p r'']; [exact Hs|]. rewrite H1. exact Hs.
+Qed.
 
 Lemma E_prefix L t r o v r' res :
-  prefix_op t = Some o -> PEx S_Unary r (v, r') -> negb (is_update o) || is_target v = true ->
+  is_new t = false -> prefix_op t = Some o -> S_New <=? L = false ->
+  PEx S_Unary r (v, r') -> negb (is_update o) || is_target v = true ->
   PSx L (EUn o v) S_Unary r' res -> PEx L (t :: r) res.
 Proof.
-  intros H1 [n1 Hn1] H2 [n2 Hn2]. exists (S (Nat.max n1 n2)). rewrite parse_expr_S. unfold expr_step. rewrite H1.
+  intros H0 H1 H1b [n1 Hn1] H2 [n2 Hn2]. exists (S (Nat.max n1 n2)). rewrite parse_expr_S. unfold expr_step. rewrite H0, H1, H1b.
   rewrite (parse_expr_mono n1 (Nat.max n1 n2) _ _ _ (Nat.le_max_l _ _) Hn1). rewrite H2.
   exact (parse_suffix_mono n2 _ _ _ _ _ _ (Nat.le_max_r _ _) Hn2).
 Qed.
 
 Lemma E_paren L t r e c r'' res :
-  prefix_op t = None -> atom_of t = None -> is_open t = true ->
+  is_new t = false -> prefix_op t = None -> atom_of t = None -> is_open t = true ->
   PEx 0 r (e, c :: r'') -> is_close c = true -> PSx L e S_Member r'' res -> PEx L (t :: r) res.
 Proof.
-  intros H1 H2 H3 [n1 Hn1] H4 [n2 Hn2]. exists (S (Nat.max n1 n2)). rewrite parse_expr_S. unfold expr_step.
-  rewrite H1, H2, H3. rewrite (parse_expr_mono n1 (Nat.max n1 n2) _ _ _ (Nat.le_max_l _ _) Hn1). rewrite H4.
+  intros H0 H1 H2 H3 [n1 Hn1] H4 [n2 Hn2]. exists (S (Nat.max n1 n2)). rewrite parse_expr_S. unfold expr_step.
+  rewrite H0, H1, H2, H3. rewrite (parse_expr_mono n1 (Nat.max n1 n2) _ _ _ (Nat.le_max_l _ _) Hn1). rewrite H4.
   exact (parse_suffix_mono n2 _ _ _ _ _ _ (Nat.le_max_r _ _) Hn2).
 Qed.
 
@@ -35,18 +66,50 @@ Lemma S_nil L left ll : PSx L left ll [] (left, []).
 Proof. exists 1%nat. reflexivity. Qed.
 
 Lemma S_dot L left ll t s r res :
-  is_dot t = true -> S_Member <=? ll = true -> PSx L (EDot left s) S_Member r res -> PSx L left ll (t :: TId s :: r) res.
+  is_dot t = true -> S_Call <=? ll = true -> PSx L (EDot left s) S_Member r res -> PSx L left ll (t :: TId s :: r) res.
 Proof. intros H1 H2 [n Hn]. exists (S n). rewrite parse_suffix_S. unfold suffix_step. rewrite H1, H2. exact Hn. Qed.
 
-Definition plain_tok (t : tok) : Prop := is_dot t = false /\ is_lbrack t = false /\ is_quest t = false.
+Definition plain_tok (t : tok) : Prop := is_dot t = false /\ is_lbrack t = false /\ is_open t = false /\ is_quest t = false.
 
 Lemma S_post L left ll t o r res :
   plain_tok t -> postfix_op t = Some o -> S_Update <=? L = false ->
   (S_Member <=? ll) && is_target left = true -> PSx L (EUn o left) S_Update r res -> PSx L left ll (t :: r) res.
-Proof. intros (H1 & H1b & H1c) H2 H3 H4 [n Hn]. exists (S n). rewrite parse_suffix_S. unfold suffix_step. rewrite H1, H1b, H1c, H2, H3, H4. exact Hn. Qed.
+Proof. intros (H1 & H1b & H1o & H1c) H2 H3 H4 [n Hn]. exists (S n). rewrite parse_suffix_S. unfold suffix_step. rewrite H1, H1b, H1o, H1c, H2, H3, H4. exact Hn. Qed.
+
+Lemma S_call L left ll t r a r' res :
+  is_dot t = false -> is_lbrack t = false -> is_open t = true -> S_Call <=? L = false -> S_Call <=? ll = true ->
+  PAx r (a, r') -> PSx L (ECall left a) S_Call r' res -> PSx L left ll (t :: r) res.
+Proof.
+  intros H1 H2 H3 H4 H5 [n1 Hn1] [n2 Hn2]. exists (S (Nat.max n1 n2)). rewrite parse_suffix_S. unfold suffix_step.
+  rewrite H1, H2, H3, H4, H5. rewrite (parse_args_mono n1 (Nat.max n1 n2) _ _ (Nat.le_max_l _ _) Hn1).
+  exact (parse_suffix_mono n2 _ _ _ _ _ _ (Nat.le_max_r _ _) Hn2).
+Qed.
+
+Lemma A_nil t r : is_close t = true -> PAx (t :: r) (ANil, r).
+Proof. intro H. exists 1%nat. rewrite parse_args_S. unfold args_step. rewrite H. reflexivity. Qed.
+Lemma close_not_expr n L t r : is_close t = true -> parse_expr n L (t :: r) = None.
+Proof.
+  intro H. apply tok_eqb_eq in H. subst t. destruct n; [reflexivity|]. rewrite parse_expr_S. reflexivity.
+Qed.
+Lemma A_last ts e c r' : PEx 3 ts (e, c :: r') -> is_close c = true -> PAx ts (ACons e ANil, r').
+Proof.
+  intros [n Hn] H1. exists (S n). rewrite parse_args_S. unfold args_step.
+  destruct ts as [|t r]; [destruct n; discriminate|].
+  destruct (is_close t) eqn:Ec; [rewrite (close_not_expr n 3 t r Ec) in Hn; discriminate|].
+  rewrite Hn, H1. reflexivity.
+Qed.
+Lemma A_more ts e c r' rest r'' :
+  PEx 3 ts (e, c :: r') -> is_close c = false -> is_comma c = true -> PAx r' (rest, r'') -> PAx ts (ACons e rest, r'').
+Proof.
+  intros [n1 Hn1] H1 H2 [n2 Hn2]. exists (S (Nat.max n1 n2)). rewrite parse_args_S. unfold args_step.
+  destruct ts as [|t r]; [destruct n1; discriminate|].
+  destruct (is_close t) eqn:Ec; [rewrite (close_not_expr n1 3 t r Ec) in Hn1; discriminate|].
+  rewrite (parse_expr_mono n1 (Nat.max n1 n2) _ _ _ (Nat.le_max_l _ _) Hn1). rewrite H1, H2.
+  rewrite (parse_args_mono n2 (Nat.max n1 n2) _ _ (Nat.le_max_r _ _) Hn2). reflexivity.
+Qed.
 
 Lemma S_index L left ll t r i c r' res :
-  is_dot t = false -> is_lbrack t = true -> S_Member <=? ll = true ->
+  is_dot t = false -> is_lbrack t = true -> S_Call <=? ll = true ->
   PEx 0 r (i, c :: r') -> is_rbrack c = true -> PSx L (EIndex left i) S_Member r' res -> PSx L left ll (t :: r) res.
 Proof.
   intros H1 H2 H3 [n1 Hn1] H4 [n2 Hn2]. exists (S (Nat.max n1 n2)). rewrite parse_suffix_S. unfold suffix_step.
@@ -55,13 +118,13 @@ Proof.
 Qed.
 
 Lemma S_cond L left ll t r y c r' no r'' res :
-  is_dot t = false -> is_lbrack t = false -> is_quest t = true -> S_Cond <=? L = false -> S_Cond <? ll = true ->
+  is_dot t = false -> is_lbrack t = false -> is_open t = false -> is_quest t = true -> S_Cond <=? L = false -> S_Cond <? ll = true ->
   PEx 3 r (y, c :: r') -> is_colon c = true -> PEx 3 r' (no, r'') ->
   PSx L (ECond left y no) S_Cond r'' res -> PSx L left ll (t :: r) res.
 Proof.
-  intros H1 H2 H3 H4 H5 [n1 Hn1] H6 [n2 Hn2] [n3 Hn3].
+  intros H1 H2 H2o H3 H4 H5 [n1 Hn1] H6 [n2 Hn2] [n3 Hn3].
   exists (S (Nat.max n1 (Nat.max n2 n3))). rewrite parse_suffix_S. unfold suffix_step.
-  rewrite H1, H2, H3, H4, H5.
+  rewrite H1, H2, H2o, H3, H4, H5.
   rewrite (parse_expr_mono n1 _ _ _ _ (Nat.le_max_l _ _) Hn1). rewrite H6.
   rewrite (parse_expr_mono n2 (Nat.max n1 (Nat.max n2 n3)) _ _ _ (Nat.le_trans _ _ _ (Nat.le_max_l n2 n3) (Nat.le_max_r n1 _)) Hn2).
   exact (parse_suffix_mono n3 _ _ _ _ _ _ (Nat.le_trans _ _ _ (Nat.le_max_r n2 n3) (Nat.le_max_r n1 _)) Hn3).
@@ -72,8 +135,8 @@ Lemma S_bin L left ll t o r rt r' res :
   left_ok o ll left = true -> PEx (right_level o) r (rt, r') -> PSx L (EBin o left rt) (spec_level o) r' res ->
   PSx L left ll (t :: r) res.
 Proof.
-  intros (H1 & H1b & H1c) H2 H3 H4 H5 [n1 Hn1] [n2 Hn2]. exists (S (Nat.max n1 n2)). rewrite parse_suffix_S. unfold suffix_step.
-  rewrite H1, H1b, H1c, H2, H3, H4, H5. rewrite (parse_expr_mono n1 (Nat.max n1 n2) _ _ _ (Nat.le_max_l _ _) Hn1).
+  intros (H1 & H1b & H1o & H1c) H2 H3 H4 H5 [n1 Hn1] [n2 Hn2]. exists (S (Nat.max n1 n2)). rewrite parse_suffix_S. unfold suffix_step.
+  rewrite H1, H1b, H1o, H1c, H2, H3, H4, H5. rewrite (parse_expr_mono n1 (Nat.max n1 n2) _ _ _ (Nat.le_max_l _ _) Hn1).
   exact (parse_suffix_mono n2 _ _ _ _ _ _ (Nat.le_max_r _ _) Hn2).
 Qed.
 
@@ -81,7 +144,8 @@ Qed.
 Definition head_stop (M : Z) (rest : list tok) : bool :=
   match rest with
   | [] => true
-  | t :: _ => negb (is_dot t) && negb (is_lbrack t) && (if is_quest t then S_Cond <=? M else true)
+  | t :: _ => negb (is_dot t) && negb (is_lbrack t) && (if is_open t then S_Call <=? M else true)
+              && (if is_quest t then S_Cond <=? M else true)
               && (match postfix_op t with Some _ => S_Update <=? M | None => true end)
               && (match binary_op t with Some o => spec_level o <=? M | None => true end)
   end.
@@ -89,7 +153,9 @@ Lemma S_stop L left ll rest : head_stop L rest = true -> PSx L left ll rest (lef
 Proof.
   intro H. exists 1%nat. rewrite parse_suffix_S. unfold suffix_step. destruct rest as [|t r]; [reflexivity|].
   simpl in H. apply andb_true_iff in H as [H H3]. apply andb_true_iff in H as [H H2]. apply andb_true_iff in H as [H Hq].
+  apply andb_true_iff in H as [H Ho].
   apply andb_true_iff in H as [H1 Hb]. apply negb_true_iff in H1. apply negb_true_iff in Hb. rewrite H1, Hb.
+  destruct (is_open t); [rewrite Ho; reflexivity|].
   destruct (is_quest t); [rewrite Hq; reflexivity|].
   destruct (postfix_op t); [rewrite H2; reflexivity|]. destruct (binary_op t); [rewrite H3; reflexivity | reflexivity].
 Qed.
@@ -104,7 +170,7 @@ Proof. destruct o; intro H; try discriminate; repeat split; reflexivity. Qed.
 Lemma post_tok o : op_kind o = KPost ->
   plain_tok (op_tok o) /\ postfix_op (op_tok o) = Some o /\ toks_of (IOp o) = [op_tok o].
 Proof. destruct o; intro H; try discriminate; repeat split; reflexivity. Qed.
-Lemma pre_tok o : op_kind o = KPre -> prefix_op (op_tok o) = Some o /\ toks_of (IOp o) = [op_tok o].
+Lemma pre_tok o : op_kind o = KPre -> is_new (op_tok o) = false /\ prefix_op (op_tok o) = Some o /\ toks_of (IOp o) = [op_tok o].
 Proof. destruct o; intro H; try discriminate; repeat split; reflexivity. Qed.
 
 Lemma find_op_sound k t o : find_op k t = Some o -> op_tok o = t.
@@ -117,14 +183,6 @@ Proof.
   - apply zlist_eqb_eq in H. congruence.
 Qed.
 
-Lemma tok_eqb_eq a b : tok_eqb a b = true -> a = b.
-Proof.
-  destruct a, b; simpl; intro H; try discriminate.
-  - apply zlist_eqb_eq in H. congruence.
-  - apply zlist_eqb_eq in H. congruence.
-  - apply andb_true_iff in H as [H1 H2]. apply zlist_eqb_eq in H1. apply zlist_eqb_eq in H2. congruence.
-  - apply zlist_eqb_eq in H. congruence.
-Qed.
 
 Lemma op_tok_shape o : (op_is_keyword o = true /\ op_tok o = TId (op_text o)) \/ (op_is_keyword o = false /\ op_tok o = TP (op_text o)).
 Proof. unfold op_tok. destruct (op_is_keyword o); [left | right]; split; reflexivity. Qed.
@@ -148,35 +206,67 @@ Qed.
 
 Lemma close_tok : is_dot (TP [41]) = false /\ postfix_op (TP [41]) = None /\ binary_op (TP [41]) = None /\ is_close (TP [41]) = true.
 Proof. repeat split; reflexivity. Qed.
-Lemma open_tok : prefix_op (TP [40]) = None /\ atom_of (TP [40]) = None /\ is_open (TP [40]) = true.
+Lemma is_new_word s : regex_after_word s = false -> is_new (TId s) = false.
+Proof.
+  intro H. destruct (is_new (TId s)) eqn:E; [|reflexivity]. unfold is_new in E. apply tok_eqb_eq in E. inversion E; subst. discriminate.
+Qed.
+Lemma open_tok : is_new (TP [40]) = false /\ prefix_op (TP [40]) = None /\ atom_of (TP [40]) = None /\ is_open (TP [40]) = true.
 Proof. repeat split; reflexivity. Qed.
 Lemma dot_tok : is_dot (TP [46]) = true.
 Proof. reflexivity. Qed.
 
 (* ---- structure of print_items ---- *)
-Definition lvl (e : expr) : Z := match e with EUn o _ | EBin o _ _ => op_level o | ECond _ _ _ => LConditional | _ => LMember end.
-Definition compound (e : expr) : bool := match e with EUn _ _ | EBin _ _ _ | ECond _ _ _ => true | _ => false end.
+Section WithMode.
+Variable mw : bool.
+Local Notation print_items := (Token.print_items mw).
+
+(* lvl: the level from which on printExpr parenthesises the node *)
+Definition lvl (e : expr) : Z :=
+  match e with
+  | EUn o _ | EBin o _ _ => op_level o
+  | ECond _ _ _ => LConditional
+  | ECall _ _ => LNew
+  | ENew _ _ => LCall
+  | _ => LMember
+  end.
+Definition compound (e : expr) : bool :=
+  match e with EUn _ _ | EBin _ _ _ | ECond _ _ _ | ECall _ _ | ENew _ _ => true | _ => false end.
 Definition wrapped (P : Z) (e : expr) : bool := compound e && (P >=? lvl e).
-Definition ll_of (P : Z) (e : expr) : Z := if wrapped P e then S_Member else lvl e.
-Definition body (e : expr) : list item := print_items (-1) e.
+Definition new_parens (P : Z) (a : expr) : bool := negb mw || has_args a || (P >=? LPostfix).
+(* grammar stratum of the unparenthesised printed form *)
+Definition strat (P : Z) (e : expr) : Z :=
+  match e with
+  | EUn o _ | EBin o _ _ => op_level o
+  | ECond _ _ _ => LConditional
+  | ECall _ _ => S_Call
+  | ENew _ a => if new_parens P a then S_Member else S_New
+  | _ => S_Member
+  end.
+Definition ll_of (P : Z) (e : expr) : Z := if wrapped P e then S_Member else strat P e.
+(* the unparenthesised item list; only "new" looks at the level (to decide about "()") *)
+Definition body (P : Z) (e : expr) : list item :=
+  match e with
+  | ENew f a => [INew] ++ print_items LNew f ++ (if new_parens P a then [ICallOpen] ++ print_items LComma a ++ [IClose] else [])
+  | EUn _ _ | EBin _ _ _ | ECond _ _ _ | ECall _ _ => print_items (-1) e
+  | _ => print_items P e
+  end.
 
 Lemma op_level_pos o : 1 <= op_level o <= 19.
 Proof. destruct o; vm_compute; split; discriminate. Qed.
 
 Lemma print_items_split P e :
-  print_items P e = if wrapped P e then [IOpen] ++ body e ++ [IClose] else body e.
+  print_items P e = if wrapped P e then [IOpen] ++ body P e ++ [IClose] else body P e.
 Proof.
-  unfold wrapped, body. destruct e as [s|s|b f|t s|o v|o l r|c0 y0 n0|t0 i0]; try reflexivity.
-  - simpl compound. simpl lvl. cbn [print_items]. pose proof (op_level_pos o) as Hp.
-    replace (-1 >=? op_level o) with false by (symmetry; rewrite Z.geb_leb; apply Z.leb_gt; lia).
-    unfold paren. destruct (P >=? op_level o); reflexivity.
-  - simpl compound. simpl lvl. cbn [print_items]. cbv zeta. pose proof (op_level_pos o) as Hp.
-    replace (-1 >=? op_level o) with false by (symmetry; rewrite Z.geb_leb; apply Z.leb_gt; lia).
-    unfold paren. destruct (P >=? op_level o); reflexivity.
+  unfold wrapped, body. destruct e as [s|s|b f|t s|o v|o l r|c0 y0 n0|t0 i0|f0 a0|f0 a0| |x0 r0]; try reflexivity.
+  all: try (simpl compound; simpl lvl; cbn [Token.print_items]; cbv zeta; pose proof (op_level_pos o) as Hp;
+            replace (-1 >=? op_level o) with false by (symmetry; rewrite Z.geb_leb; apply Z.leb_gt; lia);
+            unfold paren; destruct (P >=? op_level o); reflexivity).
 Qed.
 
-Lemma body_cond c y n : body (ECond c y n) =
+Lemma body_cond P c y n : body P (ECond c y n) =
   print_items LConditional c ++ [IQuest] ++ print_items LYield y ++ [IColon] ++ print_items LYield n.
+Proof. reflexivity. Qed.
+Lemma body_call P f a : body P (ECall f a) = print_items LPostfix f ++ [ICallOpen] ++ print_items LComma a ++ [IClose].
 Proof. reflexivity. Qed.
 
 Definition left_lvl (o : op) (l : expr) : Z :=
@@ -188,13 +278,13 @@ Definition right_lvl (o : op) (r : expr) : Z :=
   if op_eqb o BNullish && is_or_and r then LPrefix
   else if is_left_assoc o then op_level o else op_level o - 1.
 
-Lemma body_bin o l r : body (EBin o l r) = print_items (left_lvl o l) l ++ [IOp o] ++ print_items (right_lvl o r) r.
+Lemma body_bin P o l r : body P (EBin o l r) = print_items (left_lvl o l) l ++ [IOp o] ++ print_items (right_lvl o r) r.
 Proof.
   unfold body. cbn [print_items]. cbv zeta. pose proof (op_level_pos o) as Hp.
   replace (-1 >=? op_level o) with false by (symmetry; rewrite Z.geb_leb; apply Z.leb_gt; lia).
   reflexivity.
 Qed.
-Lemma body_un o v : body (EUn o v) =
+Lemma body_un P o v : body P (EUn o v) =
   match op_kind o with KPost => print_items (LPostfix - 1) v ++ [IOp o] | _ => [IOp o] ++ print_items (LPrefix - 1) v end.
 Proof.
   unfold body. cbn [print_items]. pose proof (op_level_pos o) as Hp.
@@ -217,10 +307,19 @@ Fixpoint wf (e : expr) : Prop :=
   | EBin o l r => wf l /\ wf r /\ op_kind o = KBin /\ (is_assign o = true -> is_target l = true)
   | ECond c y n => wf c /\ wf y /\ wf n
   | EIndex t i => wf t /\ wf i
+  | ECall f a => wf f /\ wfa a
+  | ENew f a => wf f /\ wfa a
+  | ANil | ACons _ _ => False
+  end
+with wfa (a : expr) : Prop :=
+  match a with
+  | ANil => True
+  | ACons x r => wf x /\ wfa r
+  | _ => False
   end.
 
 Lemma is_target_norm e : is_target (norm e) = is_target e.
-Proof. destruct e as [s|s|b f|t s|o v|o l r|c0 y0 n0|t0 i0]; try reflexivity. simpl. destruct (op_eqb o BComma); [|reflexivity]. destruct (norm r) as [| | | | |o0 ? ?| |]; try reflexivity. destruct o0; reflexivity. Qed.
+Proof. destruct e as [s|s|b f|t s|o v|o l r|c0 y0 n0|t0 i0|f0 a0|f0 a0| |x0 r0]; try reflexivity. simpl. destruct (op_eqb o BComma); [|reflexivity]. destruct (norm r) as [| | | | |o0 ? ?| | | | | |]; try reflexivity. destruct o0; reflexivity. Qed.
 
 (* ---- facts about the operand levels chosen by the printer (finite case analyses over the operator) ---- *)
 Definition lpl (o : op) : Z := if is_right_assoc o then op_level o else op_level o - 1.
@@ -270,7 +369,18 @@ Proof. destruct o; intro H; try discriminate; reflexivity. Qed.
 Lemma lvl_atom e : compound e = false -> lvl e = S_Member.
 Proof. destruct e; simpl; intro H; try discriminate; reflexivity. Qed.
 Lemma lvl_le e : lvl e <= S_Member.
-Proof. destruct e; simpl; unfold S_Member, LMember, LConditional; try lia; pose proof (op_level_pos o); lia. Qed.
+Proof. destruct e; simpl; unfold S_Member, LMember, LConditional, LNew, LCall; try lia; pose proof (op_level_pos o); lia. Qed.
+
+Lemma unw_strat P e : wrapped P e = false -> P < S_Member -> P < strat P e.
+Proof.
+  unfold wrapped. intros W HP. destruct e; simpl in *; try exact HP;
+    try (rewrite Z.geb_leb in W; apply Z.leb_gt in W; unfold LConditional, LNew, LCall, S_Call in *; lia).
+  rewrite Z.geb_leb in W. apply Z.leb_gt in W. unfold new_parens.
+  destruct (negb mw || has_args e2 || (P >=? LPostfix)) eqn:E; [exact HP|].
+  apply orb_false_iff in E as [_ E]. rewrite Z.geb_leb in E. apply Z.leb_gt in E. unfold S_New, LPostfix in *. lia.
+Qed.
+Lemma ll_of_ge P e : P < S_Member -> P < ll_of P e.
+Proof. intro HP. unfold ll_of. destruct (wrapped P e) eqn:W; [exact HP | apply unw_strat; assumption]. Qed.
 
 Lemma left_ok_print o l :
   wf l -> op_kind o = KBin -> (is_assign o = true -> is_target l = true) ->
@@ -281,32 +391,31 @@ Proof.
     destruct l; try discriminate; reflexivity.
   - destruct (op_eqb o BPow) eqn:Ep.
     + assert (o = BPow) by (destruct o; try discriminate; reflexivity). subst o.
-      destruct l as [s|s|b f|t s|u v|o2 a b|c0 y0 n0|t0 i0]; try reflexivity.
+      destruct l as [s|s|b f|t s|u v|o2 a b|c0 y0 n0|t0 i0|f0 a0|f0 a0| |x0 r0]; try reflexivity; try (destruct Hwf; fail).
       * destruct u; reflexivity.
       * unfold left_lvl, ll_of, wrapped. simpl.
         replace (LExponentiation >=? op_level o2) with true; [reflexivity|].
         symmetry. rewrite Z.geb_leb. apply Z.leb_le. destruct Hwf as (_ & _ & Hk2 & _).
         destruct o2; try discriminate; vm_compute; discriminate.
+      * unfold left_lvl, ll_of, wrapped, strat. simpl. destruct (new_parens _ a0); reflexivity.
     + destruct (op_eqb o BNullish) eqn:En.
       * assert (o = BNullish) by (destruct o; try discriminate; reflexivity). subst o.
-        destruct l as [s|s|b f|t s|u v|o2 a b|c0 y0 n0|t0 i0]; try reflexivity.
+        destruct l as [s|s|b f|t s|u v|o2 a b|c0 y0 n0|t0 i0|f0 a0|f0 a0| |x0 r0]; try reflexivity; try (destruct Hwf; fail).
         -- destruct Hwf as (_ & Hku & _). destruct u; try (exfalso; apply Hku; reflexivity); reflexivity.
         -- destruct o2; reflexivity.
+        -- unfold left_lvl, ll_of, wrapped, strat. simpl. destruct (new_parens _ a0); reflexivity.
       * unfold left_lvl. rewrite Ep, En. simpl andb. cbv iota.
         rewrite (assoc_facts o Hk), Ea, Ep. simpl orb. cbv iota.
-        rewrite spec_level_is_op_level. unfold ll_of, wrapped.
-        pose proof (op_level_pos o) as Hp. pose proof (lvl_le l) as Hl.
-        destruct (compound l) eqn:Ec; simpl andb.
-        -- destruct (op_level o - 1 >=? lvl l) eqn:E.
-           ++ apply Z.leb_le. unfold S_Member. lia.
-           ++ apply Z.leb_le. rewrite Z.geb_leb in E. apply Z.leb_gt in E. lia.
-        -- apply Z.leb_le. rewrite (lvl_atom l Ec). unfold S_Member. lia.
+        rewrite spec_level_is_op_level. pose proof (op_level_pos o) as Hp.
+        apply Z.leb_le. pose proof (ll_of_ge (op_level o - 1) l). unfold S_Member in *. lia.
 Qed.
 
 Definition lv_ok (L P : Z) (e : expr) : Prop :=
   match e with
   | EBin o _ _ => wrapped P e = true \/ L < op_level o
   | ECond _ _ _ => wrapped P e = true \/ (L < LConditional /\ P <= LYield)
+  | ECall _ _ => wrapped P e = true \/ L < S_Call
+  | EUn _ _ => wrapped P e = true \/ L < S_Update
   | _ => True
   end.
 
@@ -316,8 +425,9 @@ Proof. destruct o; reflexivity. Qed.
 Lemma right_ok_print o r :
   op_kind o = KBin -> (o = BComma -> not_comma r) -> lv_ok (right_level o) (right_lvl o r) r.
 Proof.
-  intros Hk Hc. destruct r as [s|s|b f|t s|u v|o2 a b|c0 y0 n0|t0 i0]; try exact I;
-    [|unfold lv_ok; destruct o; try discriminate; first [left; reflexivity | right; split; [reflexivity | discriminate]]].
+  intros Hk Hc. destruct r as [s|s|b f|t s|u v|o2 a b|c0 y0 n0|t0 i0|f0 a0|f0 a0| |x0 r0]; try exact I;
+    [right; destruct o; try discriminate; reflexivity| |unfold lv_ok; destruct o; try discriminate; first [left; reflexivity | right; split; [reflexivity | discriminate]]
+     |right; destruct o; try discriminate; reflexivity].
   unfold lv_ok, wrapped. simpl compound. simpl lvl. simpl andb.
   destruct (op_eqb o BNullish) eqn:En.
   - assert (o = BNullish) by (destruct o; try discriminate; reflexivity). subst o.
@@ -337,7 +447,7 @@ Definition fol (P : Z) (rest : list tok) : bool :=
   match rest with
   | [] => true
   | t :: _ =>
-      if is_dot t || is_lbrack t then LPostfix <=? P
+      if is_dot t || is_lbrack t || is_open t then LPostfix <=? P
       else if is_quest t then LConditional <=? P
       else match postfix_op t with
            | Some _ => LPrefix <=? P
@@ -348,7 +458,7 @@ Definition fol (P : Z) (rest : list tok) : bool :=
 Lemma fol_weaken P P' rest : P <= P' -> fol P rest = true -> fol P' rest = true.
 Proof.
   intros Hle H. destruct rest as [|t r]; [reflexivity|]. simpl in *.
-  destruct (is_dot t || is_lbrack t); [apply Z.leb_le in H; apply Z.leb_le; lia|].
+  destruct (is_dot t || is_lbrack t || is_open t); [apply Z.leb_le in H; apply Z.leb_le; lia|].
   destruct (is_quest t); [apply Z.leb_le in H; apply Z.leb_le; lia|].
   destruct (postfix_op t); [apply Z.leb_le in H; apply Z.leb_le; lia|].
   destruct (binary_op t); [apply Z.leb_le in H; apply Z.leb_le; lia | reflexivity].
@@ -369,6 +479,7 @@ Proof.
   intros H HP HPM HM. destruct rest as [|t r]; [reflexivity|]. simpl in *.
   destruct (is_dot t); [apply Z.leb_le in H; unfold LPostfix, LPrefix in *; lia|].
   destruct (is_lbrack t); [apply Z.leb_le in H; unfold LPostfix, LPrefix in *; lia|]. simpl.
+  destruct (is_open t); [apply Z.leb_le in H; unfold LPostfix, LPrefix in *; lia|]. simpl.
   destruct (is_quest t) eqn:Eq.
   { apply Z.leb_le in H. replace (S_Cond <=? M) with true by (symmetry; apply Z.leb_le; unfold S_Cond, LConditional in *; lia).
     apply tok_eqb_eq in Eq. subst t. reflexivity. }
@@ -376,3 +487,5 @@ Proof.
   destruct (binary_op t) as [o|] eqn:Eb; [|reflexivity].
   apply HM; [eapply binary_op_kind; eauto | apply Z.leb_le in H; exact H].
 Qed.
+
+End WithMode.
